@@ -53,6 +53,8 @@ struct Inner<C> {
     sink: Rc<MqttShared>,
     payload: Cell<Option<PlSender>>,
     inflight: RefCell<HashSet<NonZeroU16>>,
+    /// QoS 2 packet ids waiting for PUBREL
+    inflight_rel: RefCell<HashSet<NonZeroU16>>,
 }
 
 impl<T, C, E> Dispatcher<T, C, E>
@@ -74,6 +76,7 @@ where
                 payload: Cell::new(None),
                 control: Pipeline::new(control),
                 inflight: RefCell::new(HashSet::default()),
+                inflight_rel: RefCell::new(HashSet::default()),
             }),
             _t: PhantomData,
         }
@@ -204,7 +207,7 @@ where
                 }
             }
             Decoded::Packet(Packet::PublishRelease { packet_id }, _) => {
-                if self.inner.inflight.borrow().contains(&packet_id) {
+                if self.inner.inflight_rel.borrow_mut().remove(&packet_id) {
                     self.inner.control(ProtocolMessage::pubrel(packet_id)).await
                 } else {
                     log::warn!("Unknown packet-id in PublishRelease packet");
@@ -265,6 +268,7 @@ where
             if let Some(packet_id) = packet_id {
                 if qos2 {
                     // packet id is released by PUBREL
+                    inner.inflight_rel.borrow_mut().insert(packet_id);
                     Ok(Some(Encoded::Packet(Packet::PublishReceived { packet_id })))
                 } else {
                     inner.inflight.borrow_mut().remove(&packet_id);
@@ -305,6 +309,7 @@ impl<C> Inner<C> {
                 Some(Encoded::Packet(codec::Packet::PublishAck { packet_id: id }))
             }
             ProtocolMessageKind::PublishReceived(id) => {
+                self.inflight_rel.borrow_mut().insert(id);
                 Some(Encoded::Packet(codec::Packet::PublishReceived { packet_id: id }))
             }
             ProtocolMessageKind::PublishRelease(id) => {
